@@ -9,6 +9,7 @@ import Mathlib.Tactic.SplitIfs
 import Mathlib.Tactic.NormNum
 import Batteries.Data.List.Lemmas
 import Resvg.Convert.Stops
+import Resvg.Generated.FiniteGuards
 
 namespace Resvg.Props.C04
 open Resvg Resvg.Convert
@@ -301,5 +302,29 @@ theorem C04_at_least_two_stops (raw : List Rat) (h : 2 ≤ raw.length) : 2 ≤ (
   simp only [shiftEqual_length, fixZeros_length]
   apply dedup_length_ge_two
   simpa using h
+
+/-! ### products of two finite numbers are stored only when finite
+
+A view-box scale is a quotient, a bounding-box resolution a product of two finite numbers; neither
+need be finite in f32.  Every site that stores such a product tests it first (`Generated.finiteGuards`,
+read off the current sources); `storeChecked` is that shape, for any notion `fin` of "finite". -/
+
+/-- compute, test, store — or drop the element / paint -/
+def storeChecked {T : Type} (fin : T → Bool) (product : T) : Option T :=
+  if fin product then some product else none
+
+/-- **nothing that is not finite is ever stored** by a guarded site, and every site is guarded -/
+theorem C04_stored_products_finite {T : Type} (fin : T → Bool) (product stored : T)
+    (h : storeChecked fin product = some stored) :
+    fin stored = true ∧ stored = product ∧ ∀ g ∈ Generated.finiteGuards, g.2 = true := by
+  unfold storeChecked at h
+  split at h
+  · injection h with h; subst h; exact ⟨by assumption, rfl, by decide⟩
+  · cases h
+
+/-- a product that is not finite is dropped -/
+theorem C04_non_finite_product_dropped {T : Type} (fin : T → Bool) (product : T) (h : fin product = false) :
+    storeChecked fin product = none := by
+  unfold storeChecked; simp [h]
 
 end Resvg.Props.C04
